@@ -351,3 +351,54 @@ def spec_check(fn, rule, inst, expr, spec, roles=None, opaque=(), at=None, node=
     return fn.ob(rule, inst, ok, node if node is not None else expr,
                  detail='' if ok else 'code computes %s, specification is %s' % (sym.show(code_nf), sym.show(spec_nf)),
                  key=inst)
+
+
+# ---------------------------------------------------------------------------
+# ONCE: a statement executes exactly once on every normal path through a loop iteration
+
+def loop_nodes(fn, loop):
+    """(for/test node, body-entry node) of a For/While statement."""
+    head = fn.cfg.node_of(loop)
+    if isinstance(loop, ast.For):
+        body_in = [n for n in fn.cfg.succ(head) if n.kind == 'join' and n.label == 'for-body'][0]
+    else:
+        body_in = fn.cfg.assume[id(loop)][0]
+    return head, body_in
+
+
+def once_per_iteration(fn, loop, stmt):
+    """Returns (ok, why).  Branches on loop-invariant flag names (`if full_output:`) are treated as
+    one consistent choice per run: the statement must then be unconditional inside that branch."""
+    inv = assigned_names(loop.body) | set(target_names(loop.target) if isinstance(loop, ast.For) else [])
+    anchor = stmt
+    prev = stmt
+    for a in fn.ancestors(stmt):
+        if a is loop:
+            break
+        if isinstance(a, ast.If) and fn.in_body_of(prev, a, 'body') and not a.orelse:
+            t = a.test.operand if isinstance(a.test, ast.UnaryOp) and isinstance(a.test.op, ast.Not) else a.test
+            if isinstance(t, ast.Name) and t.id not in inv:
+                anchor = a
+                prev = a
+                continue
+            # the statement must be a direct child of the flag block
+        if isinstance(a, (ast.For, ast.While)):
+            return False, 'inside a nested loop'
+        if anchor is not a and not isinstance(a, ast.If):
+            pass
+        if isinstance(a, ast.If):
+            # conditional on something that varies per iteration
+            anchor = None
+            break
+        prev = a
+    if anchor is None:
+        return False, 'executed only under a per-iteration condition'
+    # between stmt and anchor only flag-ifs: stmt must be a direct child of the innermost flag-if body
+    par = fn.parent.get(id(stmt))
+    if par is not loop and not (isinstance(par, ast.If) and any(stmt is x for x in par.body)):
+        return False, 'nested in %s' % type(par).__name__
+    head, body_in = loop_nodes(fn, loop)
+    an = fn.cfg.node_of(anchor) or fn.node(anchor)
+    if fn.cfg.reaches_avoiding(body_in, head, [an]):
+        return False, 'a normal path through the iteration skips it'
+    return True, ''
